@@ -40,7 +40,7 @@ def ansOf {α} (f : α → String) : Except Err α → Answer
   | .error e => .err e
 
 def elementsOf (es : List Entry) (db : Except Err (List Char)) : Except Err (List String) :=
-  if (stemsEntries es).isEmpty then .ok [] else db.map (fun d => (elements es d).describe)
+  if es.isEmpty then .ok [] else db.map (fun d => (elements es d).describe)
 
 /-- answer of `op` computed from scratch on the entries (what a fresh object answers) -/
 def answerFresh (opt : List Entry → Except Err (List Char)) (es : List Entry) : Op → Answer
@@ -51,7 +51,7 @@ def answerFresh (opt : List Entry → Except Err (List Char)) (es : List Entry) 
   | .allDB => ansOf (fun l => ",".intercalate (l.map String.ofList)) (allDB es)
   | .elements => ansOf (fun l => "|".intercalate l) (elementsOf es (opt es))
   | .withoutIsolated => ansOf showEntriesText (
-      if (stemsEntries es).isEmpty then .ok es else (opt es).map (fun _ => withoutIsolated es))
+      if es.isEmpty then .ok es else (opt es).map (fun _ => withoutIsolated es))
   | .withoutPseudoknots => ansOf showEntriesText ((opt es).bind (withoutPseudoknots es))
 
 def step (opt : List Entry → Except Err (List Char)) (o : Obj) : Op → Obj × Answer
@@ -71,14 +71,14 @@ def step (opt : List Entry → Except Err (List Char)) (o : Obj) : Op → Obj ×
     match o.cElems with
     | some e => (o, ansOf (fun l => "|".intercalate l) e)
     | none =>
-      if (stemsEntries o.entries).isEmpty then
+      if o.entries.isEmpty then
         ({ o with cElems := some (.ok []) }, .text "")
       else
         let d := o.cDot.getD (opt o.entries)
         let e := d.map (fun db => (elements o.entries db).describe)
         ({ o with cDot := some d, cElems := some e }, ansOf (fun l => "|".intercalate l) e)
   | .withoutIsolated =>
-    if (stemsEntries o.entries).isEmpty then
+    if o.entries.isEmpty then
       ({ o with cElems := some (o.cElems.getD (.ok [])) }, .text (showEntriesText o.entries))
     else
       let d := o.cDot.getD (opt o.entries)
